@@ -72,6 +72,9 @@ def real_cases(menu, filters_index):
             dict(prefix=[], threads=[{"k": "store", "a": 1}, {"k": "store", "a": 2}, {"k": "remove", "a": 1}]),
             dict(prefix=[{"k": "store", "a": 1}], threads=[{"k": "store", "a": 1}, {"k": "store", "a": 10}, {"k": "remove", "a": 1}]),
             dict(prefix=[{"k": "store", "a": 3}], threads=[{"k": "store", "a": 4}, {"k": "store", "a": 2}, {"k": "remove", "a": 3}]),
+            # two removals of one event overlapping its re-submission (a removal that acts on what it looked up earlier)
+            dict(prefix=[{"k": "store", "a": 1}], threads=[{"k": "remove", "a": 1}, {"k": "remove", "a": 1}, {"k": "store", "a": 1}]),
+            dict(prefix=[{"k": "store", "a": 5}], threads=[{"k": "remove", "a": 5}, {"k": "store", "a": 6}, {"k": "store", "a": 5}]),
         ]
     return [
         dict(prefix=[], threads=[{"k": "store", "a": 1}, {"k": "store", "a": 2}, {"k": "query", "f": q["ids1_2"]}]),
